@@ -133,13 +133,71 @@ theorem rewind_rows_started (cfg : Cfg) (hwf : cfg.WF) (st : State) (now : Int) 
   have := mem_startK.mp hk
   exact ⟨{ step := s, wid := ip.wid, ev := ip.ev }, mem_workersOf.mpr this, rfl, rfl⟩
 
+/-! ### the start of a run, from whatever state: the rewind empties every in-progress table before it
+starts anything, so nothing needs to be assumed of the state the run is resumed from -/
+
+theorem rewind_starts_fresh (cfg : Cfg) (hwf : cfg.WF) (st : State) (now : Int) :
+    (∀ n ∈ workersOf (rewind cfg st now).2, n.step ∈ cfg.names ∧
+        (n.wid, n.ev) ∈ keys ((rewind cfg st now).1.workers n.step)) ∧
+      ((workersOf (rewind cfg st now).2).map Worker.slot).Nodup := by
+  have hnd : ((sortedSteps cfg).map (·.name)).Nodup := (sortedSteps_names_perm cfg).nodup_iff.mpr hwf
+  have hids' := rewind_idsInv_fresh cfg hwf st now
+  unfold rewind at hids' ⊢
+  obtain ⟨new, h1, h2, h3⟩ := rewindLoop_track cfg now (sortedSteps cfg) st [] hnd
+    (fun c hc => mem_sortedSteps hc)
+  rw [List.nil_append] at h1
+  rw [h1]
+  have ht : Track (fun s => if s ∈ (sortedSteps cfg).map (·.name) then [] else keys (st.workers s))
+      (rewindLoop now (sortedSteps cfg) st []).1 new := h3
+  obtain ⟨t1, t2⟩ := track_starts hids' ht h2
+  exact ⟨fun n hn => ⟨(t1 n hn).1, (t1 n hn).2.1⟩, t2⟩
+
+theorem init_aux_fresh (cfg : Cfg) (hwf : cfg.WF) (P : Prop) (st0 : State) (now : Int)
+    (r : Runner) (hst : r.st = (rewind cfg st0 now).1) (hrun : r.running = []) (hb : NoSR r.buf)
+    (hh : HeapNoSR r.heap) (hm : r.mailbox = []) :
+    RunInv cfg P (execCmds r (rewind cfg st0 now).2) := by
+  obtain ⟨s1, s2⟩ := rewind_starts_fresh cfg hwf st0 now
+  obtain ⟨e1, e2, e3, e4, e5⟩ := execCmds_spec' (rewind cfg st0 now).2 r hb hh
+  rw [hrun, List.nil_append] at e3
+  refine ⟨?_, ?_, (e3.map _).nodup s2, ?_, e5, Or.inl e4⟩
+  · rw [e1, hst]; exact rewind_idsInv_fresh cfg hwf st0 now
+  · intro w hw
+    obtain ⟨a, b⟩ := s1 w (e3.subset hw)
+    obtain ⟨ip, hip, hw', he'⟩ := mem_keys.mp b
+    rw [e1, hst]
+    exact ⟨a, ip, hip, hw', fun _ => he'⟩
+  · rw [e2, hm]; intro t ht; cases ht
+
+theorem init_runInv_fresh (cfg : Cfg) (hwf : cfg.WF) (P : Prop) (st0 : State) (now : Int)
+    (start : Option Ev) (timeout : Option Nat) : RunInv cfg P (Runner.init cfg st0 now start timeout) := by
+  unfold Runner.init
+  simp only
+  apply init_aux_fresh cfg hwf P st0 now
+  · rfl
+  · cases timeout <;> rfl
+  · cases timeout <;>
+    · intro t ht
+      simp only [Runner.push] at ht
+      rcases List.mem_append.mp ht with h | h
+      · exact rehydrateTicks_noSR cfg st0 t h
+      · cases start with
+        | none => cases h
+        | some e => simp only [List.mem_singleton] at h; subst h; rfl
+  · cases timeout with
+    | none => intro tm h; cases h
+    | some t =>
+      intro tm h
+      simp only [Runner.push, List.nil_append, List.mem_singleton] at h
+      subst h; rfl
+  · cases timeout <;> rfl
+
 /-- the initial tick of a run with a start event -/
 def startTicksOf (start : Option Ev) : List Tick :=
   match start with | some e => [Tick.addEvent { ev := e } none] | none => []
 
-theorem init_c03Inv (cfg : Cfg) (hwf : cfg.WF) (st0 : State) (h0 : IdsInv cfg st0) (now : Int)
+theorem init_c03Inv (cfg : Cfg) (hwf : cfg.WF) (st0 : State) (now : Int)
     (start : Option Ev) (timeout : Option Nat) : C03Inv cfg (Runner.init cfg st0 now start timeout) := by
-  refine ⟨init_runInv cfg hwf False st0 h0 now start timeout, ?_, ?_, ?_⟩
+  refine ⟨init_runInv_fresh cfg hwf False st0 now start timeout, ?_, ?_, ?_⟩
   · -- idle-check bookkeeping
     unfold Runner.init
     simp only
@@ -190,9 +248,9 @@ theorem init_c03Inv (cfg : Cfg) (hwf : cfg.WF) (st0 : State) (h0 : IdsInv cfg st
       ((sortedSteps_names_perm cfg).nodup_iff.mpr hwf) c (mem_sortedSteps_iff.mpr hc)
 
 /-- every state of every run satisfies the C03 invariants -/
-theorem reach_c03Inv (cfg : Cfg) (hwf : cfg.WF) (pol : Policy) (st0 : State) (h0 : IdsInv cfg st0)
+theorem reach_c03Inv (cfg : Cfg) (hwf : cfg.WF) (pol : Policy) (st0 : State)
     (now : Int) (start : Option Ev) (timeout : Option Nat) (acts : List Act) :
     C03Inv cfg (Runner.run cfg pol (Runner.init cfg st0 now start timeout) acts) :=
-  run_c03Inv cfg hwf pol acts _ (init_c03Inv cfg hwf st0 h0 now start timeout)
+  run_c03Inv cfg hwf pol acts _ (init_c03Inv cfg hwf st0 now start timeout)
 
 end Engine
